@@ -1,6 +1,6 @@
 //! C15: max tracker.  (a) replay of every transition of the TLC state graph on the real object,
 //! (b) recording of random update sequences for trace validation.
-use crate::util::*;
+use pmh_verif::util::*;
 use probminhash::verif::VerifMaxTracker;
 use rand::Rng;
 use serde_json::{json, Value};
@@ -33,7 +33,7 @@ fn observe(t: &VerifMaxTracker, m: usize) -> (Vec<f64>, f64) {
 }
 
 /// replay in=<ndjson of TR records> out=<json summary> seed=N
-pub fn replay(a: &Args) {
+fn replay(a: &Args) {
     silence_panics();
     let recs = read_ndjson(&a.str("in"));
     let seed = a.u64_or("seed", 1);
@@ -128,7 +128,7 @@ pub fn replay(a: &Args) {
 }
 
 /// record out=<ndjson> seed=N runs=R maxm=M len=L : random update sequences on the real object
-pub fn record(a: &Args) {
+fn record(a: &Args) {
     silence_panics();
     let seed = a.u64_or("seed", 1);
     let runs = a.usize_or("runs", 20);
@@ -204,4 +204,17 @@ pub fn record(a: &Args) {
         }
     }
     out.finish();
+}
+
+fn main() {
+    let argv: Vec<String> = std::env::args().collect();
+    if argv.len() < 2 {
+        tool_error("usage: c15 <replay|record> key=value ...");
+    }
+    let a = Args::parse(&argv[2..]);
+    match argv[1].as_str() {
+        "replay" => replay(&a),
+        "record" => record(&a),
+        other => tool_error(&format!("unknown subcommand {}", other)),
+    }
 }
